@@ -38,6 +38,9 @@
 import Ctrmml.Proofs.MdDriver
 import Ctrmml.Proofs.TickStream
 import Ctrmml.Proofs.MdKeys
+import Ctrmml.Proofs.TickLoop
+import Ctrmml.Proofs.MdUpd
+import Ctrmml.Proofs.MdSched
 import Ctrmml.Spec.Schedule
 namespace Ctrmml.C07
 open Ctrmml Ctrmml.MdDriver Tables
@@ -386,6 +389,109 @@ example :
           authorJ := [], date := [], creator := [], notes := [] } with
       | .ok ops => (((stamps 0 ops).filter (fun p => isWrite p.2)).map (fun p => p.1)).eraseDups
       | .error _ => []) = [0, 735, 2205, 3675] := by decide +kernel
+
+/-! ### every pass of a track, the whole log, the schedule of an FM channel -/
+
+/-- **Tick delivery on every pass of a track.**  Hypotheses as in `C07_tick_delivery`, plus:
+every `SEGNO` the track passes is read in the channel's own track outside any loop and any
+subroutine (`TickStream.SegTop`; established by `TickStream.segTop_of_noSegno` for tracks without
+loop point and by `TickStream.segTop_one_segno` / `segTop_segment` / `segTop_segno` for loop
+points at the top level of the track), and twice the length of a pass fits the step budget of the
+fetch loop.  Then for EVERY `n` the first `n` calls of `Player::play_tick` call `write_event`
+with exactly what the looping list machine `TickStream.lxTick` delivers: the items of `perf` at
+their start ticks and the synthetic `REST`s; when the items run out and a loop point was passed,
+time has passed since the loop point and since the last jump back, the items after the last loop
+point again (and again, on every later pass); otherwise — no loop point, or a loop section that
+takes no time — `END` once, and nothing afterwards.  Outside `SegTop` the real player resumes
+somewhere else: known findings `segno-in-sub`, `segno-in-loop`. -/
+theorem C07_tick_delivery_all_passes (song : Song) (root : List Event) (pd : Int → Bool)
+    (hs : Refine.SongNoEnd song) (hr : Tree.NoEnd root) (hplain : TickStream.PlainCode song root)
+    (items : List Expand.Item) (hperf : Expand.perf song root = .ok items)
+    (hfuel : ∀ k outs, Refine.stepsCore song root k ⟨.root, 0, []⟩ = .ok (⟨.root, root.length, []⟩, outs) →
+      2 * k + 2 ≤ PlayerCh.settleFuel)
+    (hseg : ∀ k, TickStream.SegTop song root k ⟨.root, 0, []⟩) (n : Nat) :
+    TickStream.tickEvents song root pd n PlayerCh.initPS = TickStream.lxRun n (TickStream.lxInit items) := by
+  have hB : 2 * 49999 + 2 ≤ PlayerCh.settleFuel := by unfold PlayerCh.settleFuel; decide
+  have hrel := TickStream.relX_init song root hs hr items hperf 49999
+    (fun k outs h => by have := hfuel k outs h; unfold PlayerCh.settleFuel at this; omega) hseg
+  obtain ⟨s', hrun, _⟩ := TickStream.lx_sim_run song root _ 49999 (TickStream.endOK_root song root) hB n _ _ hrel
+  exact TickStream.tickEvents_ct song root pd (TickStream.plainHooks_of song root hplain) n PlayerCh.initPS rfl
+    (by unfold TickStream.drumOff; decide) s' _ hrun
+
+/-- **The log, update by update; when the export stops; where the loop marker goes.**  The
+operation list of every successful export is: the header pokes, the initial writes of
+`play_song`, the export loop `L`, `stop`, the tag.  `L` consists of the operations of the
+sequence updates `0 … K` — `updOps k` = the register writes of `seq_update` number `k`
+followed by `set_loop` iff after that update `loop_trigger` is set and `get_loop_count() = 0` —
+the operations of update `k` at sample time `735·k` (nothing else is ever written), and of waits
+that sum to `735·K`, the length of the log.  Update `K` is the FIRST update after which no
+channel plays any more or `get_loop_count()` has reached the configured number of loops
+(`stopCond`); no error arises up to then.  (Reaching `max_seconds` is `DErr.tooLong` in the
+model, i.e. not a successful export; the C++ pads the log to one hour there.) -/
+theorem C07_log_by_updates (d : Data) (song : Song) (tags : Vgm.Tags) (ops : List Vgm.Op)
+    (h : exportOps d song tags = .ok ops) :
+    ∃ K L, ops = ctorPokes ++ (playSong d song).2 ++ L ++ [Vgm.Op.stop, Vgm.Op.writeTag tags] ∧
+      stamps 0 L = schedLog d song (playSong d song).1 (K + 1) ∧ delaySum L = 735 * K ∧
+      stopCond (updRun d song (K + 1) (playSong d song).1) ∧
+      (∀ j, 1 ≤ j → j ≤ K → ¬ stopCond (updRun d song j (playSong d song).1)) ∧
+      (∀ j, j ≤ K + 1 → (updRun d song j (playSong d song).1).g.err = none) ∧
+      (∀ k, updOps d song (playSong d song).1 k =
+        (updWrs d song (playSong d song).1 k).flatMap Wr.toOps ++
+          (if (seqUpdate d song (updRun d song k (playSong d song).1)).1.g.loopTrigger = true ∧
+              loopCount (seqUpdate d song (updRun d song k (playSong d song).1)).1 = 0 then [Vgm.Op.setLoop] else [])) := by
+  obtain ⟨K, L, h1, h2, h3, h4, h5, h6⟩ := exportOps_log d song tags ops h
+  refine ⟨K, L, h1, h2, h3, h4, h5, h6, fun k => ?_⟩
+  rw [updOps_eq]
+  congr 1
+  unfold updMark stepLoop
+  split <;> rfl
+
+/-- **The schedule of an FM channel over the whole log (partial: one channel track, no SLUR).**
+Let a song have one channel track — an FM channel, `id < 6` — and any number of subroutine
+tracks, no `SLUR`, platform or drum-mode event anywhere, every `SEGNO` at the top level of the
+channel's track (`SegTop`), and let its export succeed.  Let `N_k` be the driver's tick counter
+before sequence update `k` (`N_0 = 0`, `N_{k+1} = N_k + (c_k + δ_k + 1) div 128` with the tempo
+accumulator `c_k` and the tempo `δ_k` in force: `C07_update_ticks`, `C07_tempo_closed_form`).
+Then the log is `L` as in `C07_log_by_updates`, and for EVERY update `k = 0 … K` of the log, the
+writes to the key register 0x28 at sample time `735·k` are (`FmKeySched`):
+ * only key-off / key-on words of this channel;
+ * a key-off iff a note, a rest or the end of the track (or a tie, see `C07_key_frame_partial`)
+   is delivered by the looping list machine of `C07_tick_delivery_all_passes` at a tick `τ` with
+   `N_k ≤ τ < N_{k+1}`;
+ * the key-on, as the LAST key write, iff a note (or such a tie) is delivered at such a tick.
+Hence the note that the tick stream starts at tick `τ` — on any pass of the track — is keyed
+in update `k(τ) = min {k | N_{k+1} > τ}` at sample `735·k(τ)`, and keyed off in the update that
+contains `τ + on` (the synthetic `REST`) or the start of the next note, rest or the end.  The
+frequency word is written before the key-on inside the same update (`C07_pitch_value_partial`,
+`chAfter`: envelope, pitch, key-on in this order).  Extra hypotheses w.r.t. the full statement:
+one channel track, FM, no `SLUR` (slurred notes: `C07_slur_update_partial`), `SegTop`; a note
+that ends inside the update it starts in is keyed on AFTER its key-off (`short-note`). -/
+theorem C07_schedule_fm_partial (d : Data) (song : Song) (tags : Vgm.Tags) (ops : List Vgm.Op)
+    (id : Nat) (root : List Event) (hid : id < 6)
+    (hexp : exportOps d song tags = .ok ops) (hsingle : SingleTrack song id root)
+    (hs : Refine.SongNoEnd song) (hr : Tree.NoEnd root) (hplain : TickStream.PlainCode song root)
+    (hnoslur : ∀ tr e, e ∈ codeOf song root tr → e.type ≠ ev_SLUR)
+    (items : List Expand.Item) (hperf : Expand.perf song root = .ok items)
+    (hfuel : ∀ k outs, Refine.stepsCore song root k ⟨.root, 0, []⟩ = .ok (⟨.root, root.length, []⟩, outs) →
+      2 * k + 2 ≤ PlayerCh.settleFuel)
+    (hseg : ∀ k, TickStream.SegTop song root k ⟨.root, 0, []⟩) :
+    ∃ K L, ops = ctorPokes ++ (playSong d song).2 ++ L ++ [Vgm.Op.stop, Vgm.Op.writeTag tags] ∧
+      stamps 0 L = schedLog d song (playSong d song).1 (K + 1) ∧ delaySum L = 735 * K ∧
+      ∀ k, k ≤ K →
+        (updRun d song (k + 1) (playSong d song).1).ticks =
+          (updRun d song k (playSong d song).1).ticks +
+            (tempoStep (updRun d song k (playSong d song).1).tempoCounter (updRun d song k (playSong d song).1).g.tempoDelta).1 ∧
+        FmKeySched (id / 3) (id % 3) (TickStream.lxInit items) (updRun d song k (playSong d song).1).ticks
+          (updRun d song (k + 1) (playSong d song).1).ticks (keysV (updOps d song (playSong d song).1 k)) := by
+  obtain ⟨K, L, h1, h2, h3, _, _, h6⟩ := exportOps_log d song tags ops hexp
+  have hB : 2 * 49999 + 2 ≤ PlayerCh.settleFuel := by unfold PlayerCh.settleFuel; decide
+  have hrel := TickStream.relX_init song root hs hr items hperf 49999
+    (fun k outs h => by have := hfuel k outs h; unfold PlayerCh.settleFuel at this; omega) hseg
+  refine ⟨K, L, h1, h2, h3, fun k hk => ⟨(updRun_ticks d song _ k).1, ?_⟩⟩
+  exact single_fm_keys d song root id hid hsingle _ 49999 (TickStream.endOK_root song root) hB
+    (TickStream.plainHooks_of song root hplain)
+    (TickStream.hooks_of song root (fun t => t ≠ ev_SLUR) (by decide) hnoslur) _ hrel k
+    (fun j hj => h6 j (by omega))
 
 /-! ### the full statement (not proved; decided per export by the schedule oracle) -/
 /-- no keyed note ends inside the update it starts in: an update plays at most two ticks
